@@ -219,6 +219,20 @@ ADDED = {
     "C14__r5": ' Three application phases in flight with duplicated/reordered delivery.',
     "C15__r5": " A job family lets the transport resume from inside a producer's turn; the oracle takes the transport's last signal as the truth.",
     "C16__r5": ' Jobs monitor_net run two real dilation stacks on the in-memory network (any link may die at any moment, then more than three ping intervals pass): the Leader must not be left holding a dead connection.',
+    "C01__r6": ' The samples pair a delegate-API side with a Deferred-API side and derive keys for purposes that are not in NFC form.',
+    "C02__r6": ' A unit-level job runs the real Boss hold-back buffers over every arrival order of three application and three dilate phases.',
+    "C03__r6": ' Concrete phase-name dispatch samples through the real Boss.got_message; the Boss hold-back buffer job.',
+    "C04__r6": ' A content-level job: solver-chosen record contents (data, all-zero, empty) through the real FileConsumer into a real file object.',
+    "C05__r6": ' Archive directory entries; makedirs/mkdir are judged like extract/chmod.',
+    "C07__r6": ' A job whose only contender is the listener (the deadline still applies).',
+    "C09__r6": ' close() is a free step and must complete; the server model refuses a close without mailbox id that does not follow an open.',
+    "C10__r6": ' Configuration listen-late: two subchannels are written to before the receiving application listens.',
+    "C11__r6": ' Concrete phase-name dispatch samples (every dilate-N reaches the Dilator, for multi-digit N too).',
+    "C13__r6": ' The write after close is tried with an empty and a non-empty byte string.',
+    "C15__r6": ' The transport may call stopProducing() before the loss is reported.',
+    "C16__r6": ' After a loss the replacement connection is silent and must itself be dropped within three intervals.',
+    "C19__r6": ' Completion words are compared with reference lists computed from the byte->word tables allocation draws from.',
+    "C20__r6": ' An integer priority beyond the range of a double is in the domains.',
 }
 for _k, _v in ADDED.items():
     CHECKS[_k.split("__")[0]]["text"] = CHECKS[_k.split("__")[0]]["text"].rstrip() + _v
